@@ -185,6 +185,28 @@ func c02Case(c dirCase, viol func(sig, detail string), r *core.Run) {
 			break
 		}
 	}
+	// the whole-directory operations in every order, each order on a fresh node
+	if len(want) <= 64 {
+		for _, how := range []string{"Reify", "unixfs-preload"} {
+			how := how
+			if p, pv := core.Guard(func() {
+				k := dirOpOrders(func() (ipld.Node, error) {
+					rn, err := loadRoot(ls, root)
+					if err != nil {
+						return nil, err
+					}
+					return openVia(how, ls, rn)
+				}, want, len(want) <= 3, func(sig, detail string) {
+					viol(sig+" "+c.Builder, fmt.Sprintf("%s via %s: %s", c, how, detail))
+				})
+				if r != nil {
+					r.Transitions.Add(int64(4 * k))
+				}
+			}); p {
+				viol("panic dir-op-orders "+c.Builder, fmt.Sprintf("%s via %s: %v", c, how, pv))
+			}
+		}
+	}
 	// the same directory through a link system that reifies every node it
 	// loads (NodeReifier = unixfsnode.Reify): the root arrives as a directory
 	// already, child shards reach the library already interpreted
